@@ -335,7 +335,7 @@ def self_aliasing_appends(ctx):
     for cls, kind, dty in ((AnalogWaveform, "a", np.int64), (AnalogWaveform, "a", np.float32), (ComplexWaveform, "a", np.complex128), (Spectrum, "s", np.float64), (DigitalWaveform, "d", np.uint8)):
         for size in (4, 9, 50000):
             for slack in (0, 2, size):
-                for how in ("whole", "tail", "head", "strided", "backing-array"):
+                for how in ("whole", "tail", "head", "strided", "backing-array", "object-whole", "object-tail", "objects-tail+whole"):
                     vals = (np.arange(size) % 2 if kind == "d" else np.arange(1, size + 1)).astype(dty)
                     if how == "backing-array":
                         buf = np.concatenate([vals, np.zeros(slack, dty)])
@@ -355,9 +355,17 @@ def self_aliasing_appends(ctx):
                         if slack:
                             w.capacity = size + slack
                         view = w.data if kind in ("s", "d") else w.raw_data
-                        arg = {"whole": view, "tail": view[size // 2:], "head": view[: size // 2 + 1], "strided": view[::2]}[how]
+                        def obj(v):
+                            # another waveform / spectrum built, without copying, on (part of) the receiver's samples
+                            return DigitalWaveform.from_lines(v, copy=False) if kind == "d" else cls.from_array_1d(v, dty, copy=False)
+                        arg = {"whole": lambda: view, "tail": lambda: view[size // 2:], "head": lambda: view[: size // 2 + 1], "strided": lambda: view[::2],
+                               "object-whole": lambda: obj(view), "object-tail": lambda: obj(view[size // 2:]),
+                               "objects-tail+whole": lambda: [obj(view[size // 2:]), obj(view)]}[how]()
                     before = (w.data if kind in ("s", "d") else w.raw_data).copy()
-                    argvals = np.array(arg, copy=True)
+                    if how.startswith("object"):
+                        argvals = np.concatenate([np.array(x.data if kind in ("s", "d") else x.raw_data, copy=True) for x in (arg if isinstance(arg, list) else [arg])])
+                    else:
+                        argvals = np.array(arg, copy=True)
                     o = outcome(w.append, arg)
                     after = (w.data if kind in ("s", "d") else w.raw_data)
                     n += 1
